@@ -1311,16 +1311,27 @@ def uf_axioms():
 
 
 class RNG:
-    """np.random.default_rng() stand-in: every draw is a fresh real variable; calls are logged"""
+    """np.random.default_rng() stand-in: every draw is a fresh real variable; calls are logged.
+    An unseeded generator is a stream of its own; generators created with the same explicit seed replay the same stream."""
 
     calls = []
     count = [0]
 
+    def __init__(self, seed=None):
+        self.seed = seed
+        self.k = 0
+
     def normal(self, loc=0, scale=1, size=None):
         n = 1 if size is None else (size.__index__() if is_sym(size) else int(size))
-        c = RNG.count[0]
-        RNG.count[0] += 1
-        xs = [SN(E.fresh(f"xi_{c}_{i}", "real")) for i in range(n)]
+        if self.seed is None:
+            c = RNG.count[0]
+            RNG.count[0] += 1
+            names = [f"xi_{c}_{i}" for i in range(n)]
+        else:
+            c = f"s{self.seed}_{self.k}"
+            self.k += 1
+            names = [f"xi_{c}_{i}" for i in range(n)]
+        xs = [SN(E.vars[nm]) if nm in E.vars else SN(E.fresh(nm, "real")) for nm in names]
         RNG.calls.append((c, n))
         r = SA(_to_obj(xs) if xs else rnp.empty((0,), dtype=object), "f")
         if scale != 1 or loc != 0:
@@ -1515,7 +1526,7 @@ def build_module():
     m.timedelta64 = TD
     m.sinh, m.cosh, m.tanh, m.exp = _uf("sinh"), _uf("cosh"), _uf("tanh"), _uf("exp")
     m.sqrt = lambda x: x ** Fraction(1, 2)
-    m.random = types.SimpleNamespace(default_rng=lambda *a, **k: RNG())
+    m.random = types.SimpleNamespace(default_rng=lambda seed=None, *a, **k: RNG(seed))
     m.typing = types.SimpleNamespace(NDArray=_t.List, DTypeLike=_t.Any, ArrayLike=_t.Any)
     m.abs = m.absolute = _elementwise1(abs)
     m.flatnonzero = np_flatnonzero
